@@ -1,6 +1,6 @@
 #!/bin/bash
 # confirm every seeded change that has no "confirmed" record yet (sequential; suite with 8 processes)
-cd /verif
+cd "$(dirname "$(readlink -f "$0")")/.."
 for d in seeded/*/; do
   if ! python3 -c "import json,sys; sys.exit(0 if 'confirmed' in json.load(open('$d/meta.json')) else 1)" 2>/dev/null; then
     echo "== $d"; python3 tools/seedtool.py confirm $d --np 8 > /tmp/confirm_$(basename $d).log 2>&1
